@@ -6,7 +6,8 @@ Monitors:
              an isolated configuration) restricted to the included names; git itself is the oracle
   no-respect with respect_gitignore=False the result must equal the result on the same tree with every .gitignore
              deleted
-  cli        `flowmark --list-files <root>` (cli.main) gives the same list as the API
+  cli        `flowmark --list-files <root>` (cli.main) gives the same list as the API, and with --no-respect-gitignore the
+             list of the API with respect_gitignore=False, also when a flowmark.toml next to the tree says respect-gitignore = true
 """
 from __future__ import annotations
 
@@ -33,18 +34,18 @@ class C18(Prop):
     id = "C18"
     rule = ("cases: random trees (2..8 directories, nesting <= 4, names with spaces and dots, 10 file names) with a .gitignore in "
             "~60% of the directories holding 1..4 lines drawn from 41 pattern shapes (basename, anchored, multi-segment, dir-only, "
-            "*, **, ?, classes, negations, escaped '#', trailing spaces, comments, blank lines); trees avoid default-excluded names, "
+            "*, **, ?, classes, negations, escaped '#', trailing spaces, comments, blank lines, repeated lines around a negation); trees avoid default-excluded names, "
             "links and oversize files so that only gitignore decides. Non-trivial: at least one .gitignore with an active rule; "
             "distinct by hash of (tree, ignore files).")
     assumptions = ["git (2.39, isolated from user and system configuration, no info/exclude) is the oracle for gitignore semantics"]
-    deciding = {"git-diff": {"quick": 400, "thorough": 4000}, "no-respect": {"quick": 400, "thorough": 4000}, "cli": {"quick": 40, "thorough": 400}}
+    deciding = {"git-diff": {"quick": 400, "thorough": 4000}, "no-respect": {"quick": 400, "thorough": 4000}, "cli": {"quick": 100, "thorough": 1000}}
     soft_timeout = 120.0
 
     def cases(self, tier, seed, shard, nshards):
         r = shard_rng(seed, self.id, shard)
         n = 30 if tier == "quick" else 300
         for _ in range(n):
-            yield {"kind": "tree", "seed": r.getrandbits(40), "cli": r.random() < 0.12}
+            yield {"kind": "tree", "seed": r.getrandbits(40), "cli": r.random() < 0.3}
 
     def setup_worker(self, col, tier):
         if shutil.which("git") is None:
@@ -68,6 +69,12 @@ class C18(Prop):
             for d in t["dirs"]:
                 if r.random() < 0.6:
                     lines = r.sample(PATTERNS, r.randint(1, 4))
+                    if r.random() < 0.3:
+                        # the same line again further down: the LAST matching line decides, so a repeated rule after a
+                        # negation (or a repeated negation after a rule) matters
+                        lines.insert(r.randint(1, len(lines)), "!" + r.choice(["README.md", "a.md", "b.md", "*.md", "c.md", "docs/"]))
+                        lines.append(lines[0])
+                        col.count("files_with_a_repeated_line")
                     ign[d] = lines
                     with open(os.path.join(root, d, ".gitignore"), "w") as f:
                         f.write("\n".join(lines) + "\n")
@@ -129,6 +136,26 @@ class C18(Prop):
                 lst = sorted(os.path.realpath(x) for x in out.getvalue().split("\n") if x)
                 if rc != 0 or lst != got:
                     col.violation("cli", "C18/cli-list-files-differs-from-api", case, {"rc": rc, "cli": len(lst), "api": len(got)})
+                # the command-line switch, also against a configuration file that says the opposite
+                cfg = r.choice([None, "respect-gitignore = true\n", "[file-discovery]\nrespect-gitignore = true\n"])
+                if cfg:
+                    with open(os.path.join(base, "flowmark.toml"), "w") as f:
+                        f.write(cfg)
+                col.hist("cli_config", repr(cfg))
+                out = io.StringIO()
+                with contextlib.redirect_stdout(out), contextlib.redirect_stderr(io.StringIO()):
+                    old = os.getcwd()
+                    os.chdir(base)
+                    try:
+                        rc = self.cli.main(["--list-files", "--no-respect-gitignore", root])
+                    finally:
+                        os.chdir(old)
+                        if cfg:
+                            os.remove(os.path.join(base, "flowmark.toml"))
+                lst = sorted(os.path.realpath(x) for x in out.getvalue().split("\n") if x)
+                if rc != 0 or lst != off:
+                    col.violation("cli", "C18/cli-no-respect-gitignore-differs-from-api" + ("/config-says-respect" if cfg else ""), case,
+                                  {"rc": rc, "cli": len(lst), "api_respect_off": len(off), "config": cfg})
             for d in ign:
                 os.remove(os.path.join(root, d, ".gitignore"))
             bare = sorted(os.path.realpath(str(p)) for p in self.FR(self.FRC()).resolve([root]))
